@@ -103,6 +103,8 @@ STMTS = [
     ("allocate", ["allocate(parr({e}))"], set()),
     ("format", ["100 format (i5, 'ufn(1)')", "r = {e}"], set()),
     ("format-noblank", ["100 format(i5, 3x)", "r = {e}"], set()),
+    ("format-groups", ["100 format(3(i5), 2(1x, a))", "110 format (2(i5, 3(f8.2)))", "r = {e}"], set()),
+    ("format-groups-upper", ["100 FORMAT(3(I5))", "r = {e}"], set()),
     ("goto-computed", ["go to (10, 20) i", "10 r = {e}", "20 continue"], set()),
     ("goto-computed2", ["goto (10, 20), i", "10 r = {e}", "20 continue"], set()),
     ("if-goto-computed", ["if ({e} > 0) go to (10, 20) i", "10 continue", "20 continue"], set()),
